@@ -294,7 +294,16 @@ func (c *Ctx) dateAction() (before, layout string, found bool) {
 				continue
 			}
 			fn, ok := cmds[0].Args[0].(*parse.FieldNode)
-			if !ok || len(fn.Ident) == 0 || fn.Ident[0] != dateField {
+			if !ok || len(fn.Ident) == 0 {
+				continue
+			}
+			if fn.Ident[0] != dateField {
+				// a method of the template data that returns the formatted date (ext_w3.go)
+				if len(fn.Ident) == 1 && len(cmds[0].Args) == 1 {
+					if l, ok := c.dataMethodDateLayout(fn.Ident[0]); ok {
+						return before, l, true
+					}
+				}
 				continue
 			}
 			layout := preLayout
